@@ -71,7 +71,7 @@ func (x *Exec) call(st *State, c *ssa.Call) bool {
 		fr.regs[c] = refSV(IntC(0), c.Type())
 		return true
 	}
-	if fc := x.prog.contractFor(callee); fc != nil && !fc.Inline {
+	if fc := x.prog.contractFor(callee); fc != nil && !fc.Inline && !x.inlineHere(fc) {
 		fr.regs[c] = x.applyContract(st, c, callee, fc, args)
 		return true
 	}
@@ -93,6 +93,18 @@ func (x *Exec) call(st *State, c *ssa.Call) bool {
 	}
 	x.enterInline(st, callee, bind, args, c)
 	return true
+}
+
+func (x *Exec) inlineHere(callee *FuncContract) bool {
+	if x.fc == nil {
+		return false
+	}
+	for _, k := range x.fc.InlineCalls {
+		if k == callee.Key {
+			return true
+		}
+	}
+	return false
 }
 
 func hasLoop(f *ssa.Function) bool {
